@@ -81,3 +81,53 @@ Proof.
     replace (ma_off L + (o - ma_off L)) with o in X by lia.
     symmetry. apply X; lia.
 Qed.
+
+Lemma wf_entries f atoms : mp4_wf f = true -> mp4_atoms f = Ok atoms -> mp4_entries_in_file f atoms = true.
+Proof.
+  intros Hwf Ha. destruct (wf_parts f Hwf) as (a & Ha' & _ & _ & H3). rewrite Ha in Ha'. inversion Ha'; subst. exact H3.
+Qed.
+
+(* mp4_wf is preserved: with every table of the file among those the save visits, and no item of the new ilst named like a table *)
+Theorem c10_wf_preserved f ilst_data cb f' atoms path it :
+  mp4_wf f = true -> mp4_atoms f = Ok atoms -> mp4_path atoms ILST_PATH = Some path -> mp4_tags_clean atoms = true ->
+  covered atoms -> ilst_wellformed ilst_data it -> ilst_clean it = true ->
+  mp4_save f ilst_data cb = Ok f' -> mp4_wf f' = true.
+Proof.
+  intros Hwf Ha Hp Hc Hcov Hit Hic Hs. destruct (wf_forest f atoms Hwf Ha) as (H1 & H2).
+  exact (save_existing_wf f atoms path ilst_data cb f' Ha H1 H2 Hp Hc Hs it Hit Hic Hcov (wf_entries f atoms Hwf Ha)).
+Qed.
+
+(* ------------------------------------------------------------------ `covered` is decidable on a well-formed tree *)
+Definition same_key (x y : mp4_atom) : bool :=
+  list_eqb (ma_name x) (ma_name y) && (ma_off x =? ma_off y) && (ma_len x =? ma_len y) && (ma_hdr x =? ma_hdr y).
+Definition covered_b (ks : list mp4_atom) : bool :=
+  forallb (fun x =>
+    (if mp4_named N_stco x then existsb (same_key x) (mp4_stco_list ks) else true) &&
+    (if mp4_named N_co64 x then existsb (same_key x) (mp4_co64_list ks) else true) &&
+    (if mp4_named N_tfhd x then existsb (same_key x) (mp4_tfhd_list ks) else true)) (mp4_flat ks).
+
+Lemma same_key_leaf x y : same_key x y = true -> ma_kids x = None -> ma_kids y = None -> x = y.
+Proof.
+  unfold same_key. intros H Kx Ky. destruct x as [n o l h k], y as [n' o' l' h' k']. cbn in *. subst.
+  apply andb_true_iff in H. destruct H as [H H4]. apply andb_true_iff in H. destruct H as [H H3].
+  apply andb_true_iff in H. destruct H as [H1 H2]. apply list_eqb_spec in H1. apply Z.eqb_eq in H2, H3, H4. subst. reflexivity.
+Qed.
+
+Lemma covered_of_b f ks : mp4_forest_ok f true ks 0 (zlen f) = true -> covered_b ks = true -> covered ks.
+Proof.
+  intros Hwf Hb x Hx. unfold covered_b in Hb. rewrite forallb_forall in Hb. specialize (Hb x Hx).
+  apply andb_true_iff in Hb. destruct Hb as [Hb H3]. apply andb_true_iff in Hb. destruct Hb as [H1 H2].
+  assert (Hleaf : forall y n, In y (mp4_flat ks) -> ma_name y = n -> mp4_is_container n = false -> ma_kids y = None).
+  { intros y n Hy Hn Hc. destruct (flat_member_ok f ks Hwf y Hy) as (top & Hok).
+    destruct (ma_kids y) as [k|] eqn:E; [|reflexivity]. destruct (atom_ok_kids _ _ _ _ Hok E) as (C & _). congruence. }
+  unfold mp4_named in *. repeat split; intros E; rewrite E in *.
+  - change (list_eqb N_stco N_stco) with true in H1. cbv iota in H1. apply existsb_exists in H1. destruct H1 as (y & Hy & K).
+    destruct (stco_in ks y Hy) as (Hyf & Hyn).
+    rewrite (same_key_leaf x y K (Hleaf x N_stco Hx E eq_refl) (Hleaf y N_stco Hyf Hyn eq_refl)). exact Hy.
+  - change (list_eqb N_co64 N_co64) with true in H2. cbv iota in H2. apply existsb_exists in H2. destruct H2 as (y & Hy & K).
+    destruct (co64_in ks y Hy) as (Hyf & Hyn).
+    rewrite (same_key_leaf x y K (Hleaf x N_co64 Hx E eq_refl) (Hleaf y N_co64 Hyf Hyn eq_refl)). exact Hy.
+  - change (list_eqb N_tfhd N_tfhd) with true in H3. cbv iota in H3. apply existsb_exists in H3. destruct H3 as (y & Hy & K).
+    destruct (tfhd_in ks y Hy) as (Hyf & Hyn).
+    rewrite (same_key_leaf x y K (Hleaf x N_tfhd Hx E eq_refl) (Hleaf y N_tfhd Hyf Hyn eq_refl)). exact Hy.
+Qed.
